@@ -64,8 +64,8 @@ mod verif_kani_datetime {
         let dt = o.from_utc_datetime(&u);
         assert!(dt.naive_utc() == u && *dt.offset() == o && dt.timezone() == o, "building from UTC and reading UTC back is the identity");
         assert!(dt.with_timezone(&o2).naive_utc() == u && *dt.with_timezone(&o2).offset() == o2, "converting to another zone never changes the instant");
-        assert!(dt.with_timezone(&Utc).naive_utc() == u && dt.to_utc().naive_utc() == u && dt.fixed_offset().naive_utc() == u && *dt.fixed_offset().offset() == o);
-        assert!(Utc.from_utc_datetime(&u).naive_utc() == u);
+        assert!(dt.with_timezone(&Utc).naive_utc() == u && dt.to_utc().naive_utc() == u && dt.fixed_offset().naive_utc() == u && *dt.fixed_offset().offset() == o, "dt.with_timezone(&Utc).naive_utc() == u && dt.to_utc().naive_utc() == ");
+        assert!(Utc.from_utc_datetime(&u).naive_utc() == u, "Utc.from_utc_datetime(&u).naive_utc() == u");
         assert!(dt.overflowing_naive_local() == u.overflowing_add_offset(o), "wall clock = UTC shifted by the offset");
     }
 
@@ -91,8 +91,8 @@ mod verif_kani_datetime {
         let dt = o.from_utc_datetime(&u);
         let w = u.overflowing_add_offset(o);          // wall clock (exactness: Verus, NaiveDateTime::overflowing_add_offset)
         kani::cover!(w.date() == NaiveDate::AFTER_MAX); kani::cover!(w.date() == NaiveDate::BEFORE_MIN);
-        assert!(dt.year() == w.date().year() && dt.month() == w.date().month() && dt.month0() == w.date().month0() && dt.day() == w.date().day() && dt.day0() == w.date().day0());
-        assert!(dt.ordinal() == w.date().ordinal() && dt.ordinal0() == w.date().ordinal0());
+        assert!(dt.year() == w.date().year() && dt.month() == w.date().month() && dt.month0() == w.date().month0() && dt.day() == w.date().day() && dt.day0() == w.date().day0(), "dt.year() == w.date().year() && dt.month() == w.date().month() && dt.m");
+        assert!(dt.ordinal() == w.date().ordinal() && dt.ordinal0() == w.date().ordinal0(), "dt.ordinal() == w.date().ordinal() && dt.ordinal0() == w.date().ordina");
     }
 
     // fns: Datelike::{weekday, iso_week} for DateTime<Tz>
@@ -101,7 +101,7 @@ mod verif_kani_datetime {
         let u = any_ndt(); let o = any_offset();
         let dt = o.from_utc_datetime(&u);
         let w = u.overflowing_add_offset(o);
-        assert!(dt.weekday() == w.date().weekday() && dt.iso_week() == w.date().iso_week());
+        assert!(dt.weekday() == w.date().weekday() && dt.iso_week() == w.date().iso_week(), "dt.weekday() == w.date().weekday() && dt.iso_week() == w.date().iso_we");
     }
 
     // fns: Timelike::{hour, minute, second, nanosecond} for DateTime<Tz>, DateTime::time
@@ -111,7 +111,7 @@ mod verif_kani_datetime {
         let dt = o.from_utc_datetime(&u);
         let w = u.overflowing_add_offset(o);
         kani::cover!(w.time().nanosecond() >= 1_000_000_000);
-        assert!(dt.hour() == w.time().hour() && dt.minute() == w.time().minute() && dt.second() == w.time().second() && dt.nanosecond() == w.time().nanosecond());
-        assert!(dt.time() == w.time());
+        assert!(dt.hour() == w.time().hour() && dt.minute() == w.time().minute() && dt.second() == w.time().second() && dt.nanosecond() == w.time().nanosecond(), "dt.hour() == w.time().hour() && dt.minute() == w.time().minute() && dt");
+        assert!(dt.time() == w.time(), "dt.time() == w.time()");
     }
 }
